@@ -23,10 +23,13 @@ L_RedOps == <<>>
 L_RedVars == << <<"b", BintD(2)>> >>
 Affine == [c |-> "Bin", op |-> Op0("add"),
            l |-> [c |-> "Bin", op |-> Op0("mul"), l |-> V("z", RealD), r |-> NQ(2, 1)], r |-> NQ(1, 1)]
+\* an affine expression in TWO real variables, one of which the Gaussian may keep
+Affine2 == [c |-> "Bin", op |-> Op0("add"), l |-> V("z", RealD),
+            r |-> [c |-> "Bin", op |-> Op0("mul"), l |-> V("x", RealD), r |-> NQ(2, 1)]]
 L_SubVals == <<
   NQ(1, 2),
   V("z", RealD), V("y", RealD),
-  Affine,
+  Affine, Affine2,
   Iota(<<<<"b", 2>>>>, <<>>, 0, -1, 2),
   V("v", R2), Iota(<<<<"c", 2>>>>, <<2>>, 0, 0, 1),
   N(1, 2), V("c", BintD(2)), TenI(<<<<"c", 2>>>>, <<>>, 2, <<1, 0>>) >>
